@@ -72,6 +72,13 @@ def cases(tier, seed):
             for px in ss:
                 yield mk(rng, table, mode, px, k)
                 k += 1
+    # the smallest matrices: one bin in all, one bin per chromosome
+    for table in ([[0, 0, 5]], [[0, 0, 5], [1, 0, 3]], [[0, 0, 2], [0, 2, 3]]):
+        n = len(table)
+        for mode in ("symm", "square"):
+            for px in gen.all_stores(n, mode, (1, 2)) if n == 1 else list(gen.all_stores(n, mode, (1,)))[::2]:
+                yield mk(rng, table, mode, px, k)
+                k += 1
     # more bins than a narrow ID dtype can multiply: records within the chunks unsorted, create() sorts them
     wide = gen.binnify([12, 8], 1)
     for j in range(12 if tier == "quick" else 120):
